@@ -65,7 +65,47 @@ def replay_validate(model, rec):
     return False, "model and payload corpus agree with the spec natively"
 
 
+def replay_validate_history(model, rec):
+    """validate() writes module-level state: look for a pair of messages where the verdict on the second
+    depends on the first having been validated before (each pair starts from a freshly loaded module)"""
+    import importlib
+    import sys
+
+    import voluptuous as vol
+    from spec import api
+
+    m = re.search(r"\[cmd=(-?\d+),sub=(-?\d+),version=([\d.]+)\]", rec["name"])
+    cmd0, sub0, version = int(m.group(1)), int(m.group(2)), m.group(3)
+    cells = [(n, c, a, p) for n in (1, 255) for c in (0, 255, 254) for a in (0, 1) for p in ("", "1", "20.0", "abc", "ffffff", "1.4")]
+    mod = sys.modules["mysensors.message"]
+    kinds = [(cmd0, sub0)] + [(c_, s_) for c_ in (1, 2, 0, 3, 4) for s_ in (0, 2, 6)]
+    try:
+        for cmd, sub, first in [(c_, s_, f_) for c_, s_ in kinds for f_ in cells]:
+            mod = importlib.reload(mod)
+            n, c, a, p = first
+            try:
+                mod.Message(node_id=n, child_id=c, type=cmd, ack=a, sub_type=sub, payload=p).validate(version)
+            except Exception:  # noqa: BLE001 - only the state it leaves behind matters
+                pass
+            for n2, c2, a2, p2 in cells:
+                try:
+                    mod.Message(node_id=n2, child_id=c2, type=cmd, ack=a2, sub_type=sub, payload=p2).validate(version)
+                    accepted = True
+                except vol.Invalid:
+                    accepted = False
+                want = api.valid(version, n2, c2, cmd, a2, sub, p2)
+                if accepted != want:
+                    return True, (
+                        f"version {version}: after validating {n};{c};{cmd};{a};{sub};{p!r}, the line {n2};{c2};{cmd};{a2};{sub};{p2!r} is "
+                        f"{'accepted' if accepted else 'rejected'}; the API spec (and a fresh process) says {'valid' if want else 'invalid'}"
+                    )
+    finally:
+        importlib.reload(mod)
+    return False, "no pair of messages in the corpus gets a verdict that depends on the earlier call"
+
+
 HOOKS = [
+    (re.compile(r"^Message\.validate\[.*frame\.module-state"), replay_validate_history),
     (re.compile(r"^Message\.validate\["), replay_validate),
 ]
 
@@ -173,7 +213,7 @@ def replay_next_id(model, rec):
 def replay_codec(model, rec):
     from mysensors.message import Message
 
-    for p in ["", "a", "a b", "é", "1.5", "x" * 30]:
+    for p in ["", "a", "a b", "é", "1.5", "x" * 30, "  padded", "\tx y", "\xa0ok", " "[:0] + " 7"]:
         for f in [(0, 0, 0, 0, 0), (255, 255, 4, 1, 56), (-3, 999, 7, 2, -1)]:
             m = Message(node_id=f[0], child_id=f[1], type=f[2], ack=f[3], sub_type=f[4], payload=p)
             enc = m.encode()
@@ -199,8 +239,8 @@ def replay_prepare_fw(model, rec):
     for ln in [1, 15, 16, 17, 127, 128, 129, 255, 256, 300, 1000]:
         img = bytes(rnd.getrandbits(8) for _ in range(ln))
         fw = prepare_fw(img)
-        pad = 128 - ln % 128
-        if fw["data"] != img + b"\xff" * pad or fw["blocks"] * 16 != len(fw["data"]) or fw["crc"] != compute_crc(fw["data"]):
+        pad = len(fw["data"]) - ln
+        if not (0 <= pad <= 128) or len(fw["data"]) % 128 or fw["data"] != img + b"\xff" * pad or fw["blocks"] * 16 != len(fw["data"]) or fw["crc"] != compute_crc(fw["data"]):
             return True, f"prepare_fw of a {ln}-byte image: data/blocks/crc do not match the padded image"
     return False, "padding corpus agrees"
 
@@ -240,10 +280,18 @@ def replay_config(model, rec):
         return True, f"documented options rejected: {e}"
     from mysensors.const import get_const
 
-    for v, want in (("2.0.0", "20"), ("2.0.5", "20"), ("2.3", "22"), ("2.2.0", "22"), ("1.5.1", "15"), ("1.3", "14")):
-        got = get_const(v).__name__[-2:]
-        if got != want:
-            return True, f"get_const({v!r}) selects const_{got}, expected const_{want}"
+    sup = [((1, 4), "14"), ((1, 5), "15"), ((2, 0), "20"), ((2, 1), "21"), ((2, 2), "22")]
+    for M in range(0, 4):
+        for m in range(0, 13):
+            for p in (None, 0, 1, 2, 3):
+                v = f"{M}.{m}" + ("" if p is None else f".{p}")
+                want = "14"
+                for (a, b), lab in sup:
+                    if (M, m, p or 0) >= (a, b, 0):
+                        want = lab
+                got = get_const(v).__name__[-2:]
+                if got != want:
+                    return True, f"get_const({v!r}) selects const_{got}, the numeric floor is const_{want}"
     return False, "constructor / version corpus agrees"
 
 
@@ -254,4 +302,282 @@ HOOKS += [
     (re.compile(r"^prepare_fw"), replay_prepare_fw),
     (re.compile(r"parse_mqtt_to_message|parse_message_to_mqtt|publish-then-receive"), replay_mqtt),
     (re.compile(r"^constructors|^get_const"), replay_config),
+]
+
+
+def replay_watchdog(model, rec):
+    """threaded TCP gateway on a simulated clock: every probe is answered within reconnect_timeout, yet
+    an iteration that falls just before the second answer drops the link"""
+    from unittest import mock
+
+    from mysensors.gateway_tcp import TCPGateway
+
+    now = [0.0]
+    with mock.patch("time.time", lambda: now[0]):
+        gw = TCPGateway("127.0.0.1", reconnect_timeout=10.0)
+        gw.tasks.add_job = lambda *a: None
+        gw.tcp_check_timer = gw.tcp_disconnect_timer = 0.0
+        timeline = [("check", 10.02), ("answer", 10.02), ("check", 20.04), ("check", 30.03), ("answer", 30.04)]
+        for what, t in timeline:
+            now[0] = t
+            try:
+                if what == "check":
+                    gw.check_connection()
+                else:
+                    gw._handle_i_version(None)
+            except OSError as e:
+                return True, (
+                    "reconnect_timeout 10 s, connect at 0: probe at 10.02 answered at 10.02, probe at 20.04 answered at 30.04 "
+                    f"(both within 10 s); the loop iteration at {t} raises OSError('{e}') and drops the link"
+                )
+    return False, "the timeline did not drop the link"
+
+
+HOOKS += [(re.compile(r"^watchdog\."), replay_watchdog)]
+
+
+# ------------------------------------------------------------------------------------------- further native replays
+def replay_reconnect(model, rec):
+    """lose the connection several times on a real transport; every loss must start one reconnect"""
+    import asyncio
+    import threading
+    from unittest import mock
+
+    from mysensors import transport as TR
+
+    ran = []
+    if "async" in rec["name"]:
+        async def connect(tr):
+            ran.append(tr)
+
+        async def scenario():
+            tr = TR.AsyncTransport(mock.MagicMock(), connect)
+            for n in range(1, 4):
+                tr.protocol.conn_lost_callback()
+                await asyncio.sleep(0)
+                await asyncio.sleep(0)
+                if len(ran) != n:
+                    return True, f"asyncio transport: loss #{n} started {len(ran) - (n - 1)} reconnects (connect ran {len(ran)} times after {n} losses)"
+            return False, "three losses, three reconnects"
+
+        return asyncio.run(scenario())
+    started = []
+    with mock.patch.object(threading.Thread, "start", lambda self: started.append(self)):
+        tr = TR.SyncTransport(mock.MagicMock(), lambda t: ran.append(t))
+        for n in range(1, 4):
+            tr.protocol.conn_lost_callback()
+            if len(started) != n:
+                return True, f"threaded transport: loss #{n} started {len(started) - (n - 1)} reconnect threads"
+    return False, "three losses, three reconnect threads"
+
+
+def _network():
+    from mysensors.sensor import ChildSensor, Sensor
+
+    s = Sensor(7)
+    s.type, s.sketch_name, s.sketch_version, s.battery_level, s.protocol_version, s.heartbeat = 17, "sketch é", "1.0", 55, "2.0", 3
+    s.children[1] = ChildSensor(1, 6, "temp é")
+    s.children[1].values[0] = "20.5"
+    s.children[254] = ChildSensor(254, 3)
+    bare = Sensor(9)
+    return {7: s, 9: bare}
+
+
+def _view(sensors):
+    return {
+        n: (
+            s.sensor_id, s.type, s.sketch_name, s.sketch_version, s.battery_level, s.protocol_version, s.heartbeat,
+            {c: (ch.id, ch.type, ch.description, dict(ch.values)) for c, ch in s.children.items()},
+        )
+        for n, s in sensors.items()
+    }
+
+
+def replay_roundtrip(model, rec):
+    """save with the real persistence code in both formats, with pending transient state; load into a fresh
+    network: the persistent view must be identical and the transient state reset"""
+    import os
+    import tempfile
+    from collections import deque
+
+    from mysensors.persistence import Persistence
+    from mysensors.sensor import ChildSensor
+
+    for ext in ("json", "pickle"):
+        with tempfile.TemporaryDirectory() as d:
+            path = os.path.join(d, "net." + ext)
+            net = _network()
+            net[7].new_state[1] = ChildSensor(1, 6, "temp é")
+            net[7].new_state[1].values[0] = "21"
+            net[7].queue.append("7;1;1;0;0;21\n")
+            net[7].reboot = True
+            want = _view(net)
+            Persistence(net, mock_schedule, path).save_sensors()
+            loaded = {}
+            Persistence(loaded, mock_schedule, path).safe_load_sensors()
+            if _view(loaded) != want:
+                return True, f"{ext}: the loaded network differs from the saved one: {_view(loaded)!r} != {want!r}"
+            for n, s in loaded.items():
+                if s.new_state != {} or s.queue != deque() or s.reboot is not False:
+                    return True, f"{ext}: node {n} is loaded with transient state new_state={s.new_state!r} queue={list(s.queue)!r} reboot={s.reboot!r}"
+    return False, "both formats round-trip the network and reset the transient state"
+
+
+_MEMO = {}
+
+
+def mock_schedule(*a, **k):
+    return None
+
+
+def replay_damaged_files(model, rec):
+    """every truncation and a zero-fill of the main file and of the backup: loading never raises, an intact
+    backup gives the backup's state, and nothing is partially merged"""
+    import os
+    import tempfile
+
+    from mysensors.persistence import Persistence
+
+    m = re.search(r"fmt=(json|pickle)", rec["name"])
+    if m and ("damaged", m.group(1)) in _MEMO:
+        return _MEMO[("damaged", m.group(1))]
+    for ext in (m.group(1),) if m else ("json", "pickle"):
+        _MEMO[("damaged", ext)] = (False, "no damaged main/backup combination raises or loads a partial network")
+        with tempfile.TemporaryDirectory() as d:
+            path = os.path.join(d, "net." + ext)
+            net = _network()
+            Persistence(net, mock_schedule, path).save_sensors()
+            good = open(path, "rb").read()
+            want = _view(net)
+            damaged = [good[:k] for k in range(0, len(good))] + [b"\0" * len(good)]
+            for which in ("main", "bak"):
+                for bad in damaged:
+                    for other in ("absent", "good", "damaged"):
+                        for f in (path, path + ".bak"):
+                            if os.path.exists(f):
+                                os.remove(f)
+                        a, b = (path, path + ".bak") if which == "main" else (path + ".bak", path)
+                        open(a, "wb").write(bad)
+                        if other != "absent":
+                            open(b, "wb").write(good if other == "good" else good[: len(good) // 2])
+                        loaded = {}
+                        try:
+                            Persistence(loaded, mock_schedule, path).safe_load_sensors()
+                        except Exception as e:  # noqa: BLE001
+                            _MEMO[("damaged", ext)] = True, f"{ext}: {which} file cut to {len(bad)} of {len(good)} bytes (other file {other}): safe_load_sensors raised {type(e).__name__}: {e}"
+                            return True, f"{ext}: {which} file cut to {len(bad)} of {len(good)} bytes (other file {other}): safe_load_sensors raised {type(e).__name__}: {e}"
+                        got = _view(loaded)
+                        if got not in ({}, want):
+                            return True, f"{ext}: {which} file cut to {len(bad)} bytes (other file {other}): partially loaded network {got!r}"
+                        if other == "good" and got != want:
+                            return True, f"{ext}: {which} file cut to {len(bad)} bytes and the other file intact: the intact file was not used"
+    return False, "no damaged main/backup combination raises or loads a partial network"
+
+
+def replay_schedule(model, rec):
+    """a scheduled save that fails (I/O error, or the network changing under the serialiser) must leave the
+    schedule armed"""
+    import asyncio
+    import threading
+    from unittest import mock
+
+    from mysensors import task as T
+
+    for exc in (OSError(28, "No space left on device"), RuntimeError("dictionary changed size during iteration")):
+        def save(exc=exc):
+            raise exc
+
+        if "schedule_save" in rec["name"]:
+            tasks = T.SyncTasks.__new__(T.SyncTasks)
+            tasks._cancel_save = None
+            timers = []
+
+            class FakeTimer:
+                def __init__(self, delay, fn):
+                    timers.append(self)
+
+                def start(self):
+                    pass
+
+                def cancel(self):
+                    pass
+
+            with mock.patch.object(threading, "Timer", FakeTimer):
+                tick = tasks._schedule_factory(save)
+                try:
+                    tick()
+                except Exception as e:  # noqa: BLE001
+                    if not timers:
+                        return True, f"threaded schedule: a save failing with {type(exc).__name__} makes the tick raise {type(e).__name__}: {e}; no timer re-armed"
+                if not timers:
+                    return True, f"threaded schedule: after a save failing with {type(exc).__name__} no timer is armed"
+        else:
+            async def scenario(save=save):
+                tasks = T.AsyncTasks.__new__(T.AsyncTasks)
+                tasks._cancel_save = None
+                sleeps = []
+
+                async def fake_sleep(delay):
+                    sleeps.append(delay)
+                    if len(sleeps) >= 2:
+                        raise asyncio.CancelledError()
+
+                with mock.patch.object(asyncio, "sleep", fake_sleep):
+                    sched = tasks._schedule_factory(save)
+                    await sched()
+                    pending = [t for t in asyncio.all_tasks() if t is not asyncio.current_task()]
+                    for t in pending:
+                        try:
+                            await t
+                        except asyncio.CancelledError:
+                            pass
+                        except Exception as e:  # noqa: BLE001
+                            return True, f"asyncio schedule: a save failing with {type(exc).__name__} ends the save task with {type(e).__name__}: {e}"
+                    if len(sleeps) < 2:
+                        return True, f"asyncio schedule: the save loop stopped after a save failing with {type(exc).__name__}"
+                return False, ""
+
+            bad, why = asyncio.run(scenario())
+            if bad:
+                return True, why
+    return False, "failing saves leave the schedule armed"
+
+
+def replay_framing(model, rec):
+    """feed the same byte stream in different chunkings to the real protocol class: the lines handed to
+    gateway.logic must be those of the stream"""
+    from unittest import mock
+
+    from mysensors import transport as TR
+    from mysensors.gateway_tcp import AsyncTCPMySensorsProtocol
+
+    cls = {"AsyncMySensorsProtocol": TR.AsyncMySensorsProtocol, "AsyncTCPMySensorsProtocol": AsyncTCPMySensorsProtocol}.get(
+        rec["name"].split(".")[0], TR.BaseMySensorsProtocol
+    )
+    streams = [
+        b"1;1;1;0;0;20.0\n2;1;1;0;0;21\r\n",
+        b"x" * 300 + b"1;1;1;0;0;99.9\n",
+        "1;0;0;0;47;é\n".encode() * 3,
+        b"\n\n1;255;3;0;22;0\npartial",
+    ]
+    for stream in streams:
+        want = [p.decode("utf-8", "replace") for p in stream.split(b"\n")[:-1]]
+        for size in (1, 2, 7, 120, 256, 257, len(stream)):
+            gw = mock.MagicMock()
+            got = []
+            gw.tasks.add_job = lambda fn, line: got.append(line)
+            p = cls(gw, lambda: None)
+            for i in range(0, len(stream), size):
+                p.data_received(stream[i : i + size])
+            if got != want:
+                return True, f"{cls.__name__}: a {len(stream)}-byte stream delivered in chunks of {size} bytes yields the lines {got!r}; the stream contains {want!r}"
+    return False, "all chunkings yield the lines of the stream"
+
+
+HOOKS += [
+    (re.compile(r"^reconnect-hook"), replay_reconnect),
+    (re.compile(r"^L\.(json|pickle)-(sensor|child)|^digit-keys"), replay_roundtrip),
+    (re.compile(r"safe_load_sensors|_load_sensors|^Persistence\._perform_file_action"), replay_damaged_files),
+    (re.compile(r"^schedule_save|^save_on_schedule"), replay_schedule),
+    (re.compile(r"data_received|handle_packet"), replay_framing),
 ]
